@@ -395,7 +395,7 @@ impl LongTokens {
 /// line comments made of a run of one punctuation character (separator lines and near misses):
 /// `//` or `///`, the character 1..=12 times, 0..=2 trailing blanks of two kinds, optional text
 pub struct Separators;
-const SEP_CHARS: [&str; 8] = ["-", "=", "*", "/", "#", "_", "~", "."];
+const SEP_CHARS: [&str; 11] = ["-", "=", "*", "/", "#", "_", "~", ".", "\u{2550}", "\u{e9}", "\u{1f600}"];
 impl Separators {
     pub fn len(&self) -> u64 {
         (2 * SEP_CHARS.len() * 12 * 5 * 3) as u64
